@@ -27,6 +27,11 @@ RULE = ('inputs of the conversion helpers: (value, bitwidth|None, signed) exhaus
         'bit patterns over '
         '{0,1,a,b,?} exhaustively up to length 5 (quick) / 6 (thorough) and sampled up to length 10 (also with '
         '_ and blanks for match_bitpattern) x field tuples (exact, too wide, negative, wrong arity), each '
+        'accepted value fed to a simulated match_bitpattern circuit; every entry point that can reject (Const on '
+        'int/bool/str/other, infer_val_and_bitwidth, val_to_signed_integer, the two twos-complement helpers, both '
+        'formatted-string functions, bitpattern_to_val) called inside a design under construction: the working block '
+        '(wires, names, nets) is compared around each call (rejected: unchanged; accepted Const: exactly one valued Const '
+        'more; value helpers: unchanged) and the design is then completed and simulated; the former: each '
         'accepted value fed to a simulated match_bitpattern circuit.  A case = one helper call; distinct by '
         '(helper, arguments); all cases are non-trivial calls (error paths are counted separately).')
 IMPORTS = 'From PyRTL Require Import Base.PyZ Conv.ConvBase Gen.Conv Conv.Str Conv.Harness.'
@@ -746,6 +751,149 @@ def check_enum_sets(ctx, F):
                                     % (d, f, esn, impl, again, back), dict(rep, expected=canon))
 
 
+# ---- a rejected call must leave the design being built untouched ------------------------------
+def block_snapshot(block):
+    wires = sorted((w.name, type(w).__name__, w.bitwidth, getattr(w, 'val', None) if isinstance(w, pyrtl.Const) else None)
+                   for w in block.wirevector_set)
+    return (tuple(wires), tuple(sorted(block.wirevector_by_name)), tuple(sorted(str(n) for n in block.logic)))
+
+
+def snapshot_diff(before, after):
+    out = {}
+    for k, b, a in zip(('wirevector_set', 'wirevector_by_name', 'logic'), before, after):
+        if a != b:
+            out[k] = {'added': [repr(x) for x in a if x not in b][:6], 'removed': [repr(x) for x in b if x not in a][:6]}
+    return out
+
+
+def begin_design():
+    pyrtl.reset_working_block()
+    a = pyrtl.Input(4, 'a')
+    k = pyrtl.Const(3, bitwidth=4)
+    b = pyrtl.WireVector(4, 'b')
+    b <<= a & k
+    return b
+
+
+def finish_and_simulate(b):
+    """complete the design in the working block and run it; returns None if it behaves, else what went wrong"""
+    try:
+        o = pyrtl.Output(4, 'o')
+        o <<= b ^ pyrtl.Const(5, bitwidth=4)
+        sim = pyrtl.Simulation()
+        got = []
+        for av in (6, 15, 0):
+            sim.step({'a': av})
+            got.append(sim.inspect('o'))
+    except Exception as e:
+        return '%s: %s' % (type(e).__name__, str(e)[:200])
+    want = [(av & 3) ^ 5 for av in (6, 15, 0)]
+    return None if got == want else 'simulated o = %r, expected %r' % (got, want)
+
+
+def effect_calls(ctx):
+    """(entry point, printable call, thunk, is_const) over every entry point of C16 that can reject"""
+    rng = ctx.sub_rng('effects')
+    calls = []
+    vals = sorted(set(range(-9, 10)) | {s * ((1 << k) + d) for k in (4, 8, 31, 64) for s in (1, -1) for d in (-1, 0, 1)})
+    for v in vals:
+        for w in (None, 0, 1, 3, 4, 9):
+            for signed in (False, True):
+                calls.append(('Const', 'Const(%d, bitwidth=%r, signed=%r)' % (v, w, signed),
+                              (lambda v=v, w=w, signed=signed: pyrtl.Const(v, bitwidth=w, signed=signed)), True))
+                if rng.random() < 0.3:
+                    calls.append(('infer_val_and_bitwidth', 'infer_val_and_bitwidth(%d, %r, %r)' % (v, w, signed),
+                                  (lambda v=v, w=w, signed=signed: infer_val_and_bitwidth(v, w, signed)), False))
+    for b in (False, True):
+        for w in (None, 0, 1, 2):
+            for signed in (False, True):
+                calls.append(('Const', 'Const(%r, bitwidth=%r, signed=%r)' % (b, w, signed),
+                              (lambda b=b, w=w, signed=signed: pyrtl.Const(b, bitwidth=w, signed=signed)), True))
+    strs = MALFORMED + ODD_BUT_VALID + ["2'b111", "2'b11", "-2'b10", "-2'b01", "3'd8", "3'd7", "4'hf", "4'h1f", "8'o777"]
+    for sv in strs:
+        for w in (None, 2, 4):
+            for signed in (False, True):
+                calls.append(('Const', 'Const(%r, bitwidth=%r, signed=%r)' % (sv, w, signed),
+                              (lambda sv=sv, w=w, signed=signed: pyrtl.Const(sv, bitwidth=w, signed=signed)), True))
+        calls.append(('infer_val_and_bitwidth', 'infer_val_and_bitwidth(%r)' % sv,
+                      (lambda sv=sv: infer_val_and_bitwidth(sv)), False))
+    for other in (None, 1.5, [1], (2, 3)):
+        calls.append(('Const', 'Const(%r)' % (other,), (lambda other=other: pyrtl.Const(other)), True))
+    for v in (-9, -1, 0, 5, 8, 255):
+        for w in (-1, 0, 1, 3, 4):
+            calls.append(('val_to_signed_integer', 'val_to_signed_integer(%d, %d)' % (v, w),
+                          (lambda v=v, w=w: val_to_signed_integer(v, w)), False))
+            calls.append(('twos_comp_repr', 'twos_comp_repr(%d, %d)' % (v, w),
+                          (lambda v=v, w=w: libutils.twos_comp_repr(v, w)), False))
+            if w >= 1:
+                calls.append(('rev_twos_comp_repr', 'rev_twos_comp_repr(%d, %d)' % (v, w),
+                              (lambda v=v, w=w: libutils.rev_twos_comp_repr(v, w)), False))
+    for d, f in [('zz', 's3'), ('-1', 'u3'), ('12', 'q3'), ('ADD', 'e3/Nope'), ('zz', 'e3/Ctl'), ('ADD', 'e3/Ctl'),
+                 ('5', 's3'), ('g', 'x3'), ('2', 'b3'), ('', 'u3')]:
+        calls.append(('formatted_str_to_val', 'formatted_str_to_val(%r, %r, [Ctl, AluCtl])' % (d, f),
+                      (lambda d=d, f=f: formatted_str_to_val(d, f, [Ctl, AluCtl])), False))
+    for v, f in [(6, 'e3/Ctl'), (5, 'e3/Ctl'), (5, 'e3/Nope'), (5, 'q3'), (5, 's0'), (5, 's3'), (-5, 'x3')]:
+        calls.append(('val_to_formatted_str', 'val_to_formatted_str(%r, %r, [Ctl, AluCtl])' % (v, f),
+                      (lambda v=v, f=f: val_to_formatted_str(v, f, [Ctl, AluCtl])), False))
+    for p, fl in [('', []), ('a?', [1]), ('01a', []), ('01a', [2]), ('01a', [1]), ('ab', [1]), ('aab', [4, 0]), ('aab', [-1, 1])]:
+        calls.append(('bitpattern_to_val', 'bitpattern_to_val(%r, %s)' % (p, ', '.join(map(str, fl))),
+                      (lambda p=p, fl=fl: bitpattern_to_val(p, *fl)), False))
+    return calls
+
+
+def check_rejections_have_no_effect(ctx, F):
+    calls = effect_calls(ctx)
+    batch = 60
+    for i0 in range(0, len(calls), batch):
+        b = begin_design()
+        block = pyrtl.working_block()
+        rejected_here = []
+        for entry, text, thunk, is_const in calls[i0:i0 + batch]:
+            before = block_snapshot(block)
+            res, cls = call(thunk)
+            after = block_snapshot(block)
+            ctx.case(('effect', text))
+            ctx.count('effect:%s' % entry, cls)
+            diff = snapshot_diff(before, after)
+            rep = {'setup': 'reset_working_block(); a = Input(4,"a"); k = Const(3, bitwidth=4); b = WireVector(4,"b"); b <<= a & k',
+                   'call': text, 'outcome': cls, 'working_block_change': diff,
+                   'then': 'o = Output(4,"o"); o <<= b ^ Const(5, bitwidth=4); Simulation(); step a=6,15,0'}
+            if cls != 'ok':
+                rejected_here.append(text)
+                if diff:
+                    rep['simulation_afterwards'] = finish_and_simulate(b) or 'behaves'
+                    # report an integer/bool/string argument in preference to an argument of an improper type
+                    plain = 'bitwidth=' in text
+                    F.spec_fail('rejected-call-has-effect:%s' % entry, (0 if (plain or not is_const) else 1, len(text), 0),
+                                'the rejected call %s changed the working block (%s); building and simulating the design '
+                                'afterwards: %s' % (text, ', '.join(sorted(diff)), rep['simulation_afterwards']), rep)
+                    b = begin_design()
+                    block = pyrtl.working_block()
+            elif is_const:
+                added = [x for x in after[0] if x not in before[0]]
+                ok_delta = (len(added) == 1 and added[0][1] == 'Const' and added[0][3] is not None
+                            and after[2] == before[2] and len(after[0]) == len(before[0]) + 1)
+                if not ok_delta:
+                    F.spec_fail('accepted-const:block-delta', (len(text), 0, 0),
+                                'the accepted %s did not add exactly one valued Const wire and no net' % text, rep)
+                    b = begin_design()
+                    block = pyrtl.working_block()
+            elif diff:
+                F.spec_fail('pure-helper-touches-block:%s' % entry, (len(text), 0, 0),
+                            'the value helper call %s changed the working block' % text, rep)
+                b = begin_design()
+                block = pyrtl.working_block()
+        # the design under construction must still complete and simulate after all these calls
+        bad = finish_and_simulate(b)
+        ctx.case(('effect-batch', i0))
+        if bad:
+            F.spec_fail('rejected-call-has-effect:design-broken', (i0, 0, 0),
+                        'after %d rejected calls (and the accepted ones) the design no longer builds/simulates: %s'
+                        % (len(rejected_here), bad),
+                        {'calls_rejected_in_this_block': rejected_here[:40], 'problem': bad, 'seed': ctx.seed})
+    pyrtl.reset_working_block()
+
+
 def pattern_fields(p):
     seen = []
     for c in p:
@@ -931,7 +1079,7 @@ def run(ctx):
     import time
     F = Fails(ctx)
     for part in (check_int, check_bool, check_verilog, check_signed_and_twos, check_formats, check_enum_sets,
-                 check_bitpatterns):
+                 check_bitpatterns, check_rejections_have_no_effect):
         t0 = time.time()
         part(ctx, F)
         ctx.count('wall_s_by_part', part.__name__, round(time.time() - t0, 1))
